@@ -635,6 +635,12 @@ class Tahoe2ServerSelector(log.PrefixingLogMixin):
             # XXX can we just use a set() or does order matter?
             if tracker not in readonly_trackers:
                 readonly_trackers.append(tracker)
+            # the next placement must be planned with this server as
+            # read-only, too
+            try:
+                self.peer_selector.mark_readonly_peer(tracker.get_serverid())
+            except KeyError:
+                pass
             return None
 
         # so we *always* want to run this loop at least once, even if
